@@ -87,6 +87,14 @@ CONSTRUCTS = [
     "{n} = lambda *a, **k: (a, k)\n{n}.__doc__ = 'x'\n",
     "class {N}(namedtuple('{N}', 'a b')):\n    pass\n{N}2 = Enum('{N}2', 'A B')\nclass {N}3(enum.IntFlag):\n    A = auto()\n    B = A | 2\n",
     "class {N}(TypedDict, total=False):\n    a: Required[int]\n    'doc of a'\nclass {N}2(Protocol[T]):\n    def m(self) -> T: ...\n",
+    # shapes that used to abort the run (fixed; kept so that a regression is seen)
+    "__docformat__ = '_types'\n",
+    "__docformat__ = 'nosuchformat'\n",
+    "class {N}:\n    class bar: pass\n    @foo.setter\n    def bar(self): ...\n    @deprecated(Version('p', 1, 0, 0))\n    def baz(self): ...\n",
+    "from zope.interface import implementer, Interface\nclass I{N}(Interface):\n    def m(): 'doc'\ndef some_function(): pass\n@implementer(some_function, I{N})\nclass {N}:\n    def m(self): pass\n",
+    "{n} = " + "+".join(["1"] * 6000) + "\n",
+    "{n} = " + "(" * 300 + "1" + ")" * 300 + "\n",
+    "{n} = " + "[" * 120 + "]" * 120 + "\n",
     "@dataclass(frozen=True)\nclass {N}:\n    a: int = field(default=1)\n    b: ClassVar[int] = 2\n    c: InitVar[str] = ''\n",
 ]
 
